@@ -1,11 +1,13 @@
 package main
 
 import (
+	"context"
 	"fmt"
 	"sync/atomic"
 	"time"
 
 	"github.com/safing/portbase/modules"
+	"github.com/safing/portbase/utils/vhook"
 )
 
 // Lifecycle part: a panic inside the prep / start / stop routine of module "subject"
@@ -24,6 +26,70 @@ type lifeWorld struct {
 	// offline, i.e. portbase had declared the stop complete before the routine ended.
 	earlyDone atomic.Bool
 	phase     string // phase of the subject that panics
+
+	// items launched by the start routine that panics (spec.StartItems)
+	startItems []*startItem
+	// Linger: worker that outlives the stop timeout
+	lingerBegun     atomic.Bool
+	lingerEnded     atomic.Bool
+	lingerRelease   chan struct{}
+	stopSent        atomic.Bool // the stop routine's result was handed over (hook modules.ctrlfn.sent)
+	timeoutSeen     atomic.Bool // modules.stop.timeout fired for the subject
+	lingerUndecided atomic.Bool
+}
+
+// startItem is a healthy managed item launched by the start routine before it panics;
+// it stays inside its function until the context it was handed is cancelled.
+type startItem struct {
+	name, kind string
+	begun      atomic.Bool
+	ended      atomic.Bool
+	ctx        atomic.Value // ctxBox
+}
+
+type ctxBox struct{ ctx context.Context }
+
+func (it *startItem) ctxLive() bool {
+	b, ok := it.ctx.Load().(ctxBox)
+	return ok && b.ctx.Err() == nil
+}
+
+func (lw *lifeWorld) launchStartItems() {
+	m := lw.mods["subject"]
+	for i, k := range lw.spec.StartItems {
+		it := &startItem{name: fmt.Sprintf("start-item-%d-%s", i, k), kind: k}
+		lw.startItems = append(lw.startItems, it)
+		body := func(ctx context.Context) error {
+			it.ctx.Store(ctxBox{ctx})
+			lw.log.Rec("begin", it.name, it.kind, map[string]any{"ctx_done": ctx.Err() != nil})
+			it.begun.Store(true)
+			<-ctx.Done()
+			lw.log.Rec("end", it.name, it.kind, map[string]any{"ctx_cancelled": true})
+			it.ended.Store(true)
+			return nil
+		}
+		switch k {
+		case "worker":
+			m.StartWorker(it.name, body)
+		case "serviceworker":
+			m.StartServiceWorker(it.name, svcBackoff, body)
+		case "mt-high":
+			m.StartHighPriorityMicroTask(it.name, body)
+		case "mt-med":
+			m.StartMicroTask(it.name, 0, body)
+		}
+	}
+	// the start routine sees its items running before it goes on (and panics)
+	if !waitFor(waitBegin, func() bool {
+		for _, it := range lw.startItems {
+			if !it.begun.Load() {
+				return false
+			}
+		}
+		return true
+	}) {
+		lw.harnessProblem("items launched by the start routine did not begin")
+	}
 }
 
 func (lw *lifeWorld) routine(mod, phase string) func() error {
@@ -35,6 +101,9 @@ func (lw *lifeWorld) routine(mod, phase string) func() error {
 		defer end.Add(1)
 		n := run.Add(1)
 		lw.log.Rec("begin", mod, phase, map[string]any{"n": n})
+		if mod == "subject" && phase == "start" && n == 1 && len(lw.spec.StartItems) > 0 {
+			lw.launchStartItems()
+		}
 		if d := lw.delays[mod]; d > 0 {
 			time.Sleep(d)
 		}
@@ -147,6 +216,10 @@ func runLifeChild(sp caseSpec, dir string) {
 		}
 	}
 
+	if sp.Linger {
+		lw.setupLinger()
+	}
+
 	taskName := lw.phase + " module"
 	taskOK := func(s string) bool { return s == taskName }
 
@@ -169,7 +242,11 @@ func runLifeChild(sp caseSpec, dir string) {
 		w.fact("subject_status_after_panic", lw.status("subject"))
 		// Stopping what did start is C01's business (a failed start leaves the module
 		// in "starting"); here: Shutdown returns and the process survives.
-		lw.shutdownLife(sp, false)
+		if len(sp.StartItems) > 0 {
+			lw.retryAndStop(sp)
+		} else {
+			lw.shutdownLife(sp, false)
+		}
 
 	case "start-mgmt":
 		if startErr != nil {
@@ -190,12 +267,17 @@ func runLifeChild(sp caseSpec, dir string) {
 		w.check("counter-leak", sp.Kind, sp.Value, !s.CtrlFn,
 			"the module's control-function flag is still set after its routine panicked", s)
 		w.fact("subject_status_after_panic", lw.status("subject"))
-		lw.shutdownLife(sp, false)
+		if len(sp.StartItems) > 0 {
+			lw.retryAndStop(sp)
+		} else {
+			lw.shutdownLife(sp, false)
+		}
 
 	case "stop":
 		if startErr != nil {
 			w.harnessProblem("modules.Start with healthy routines failed: %s", startErr)
 		}
+		lw.launchLinger()
 		lw.shutdownLife(sp, true)
 		lw.quiesce()
 		lw.raised(nil)
@@ -213,6 +295,7 @@ func runLifeChild(sp caseSpec, dir string) {
 		if startErr != nil {
 			w.harnessProblem("modules.Start with healthy routines failed: %s", startErr)
 		}
+		lw.launchLinger()
 		lw.mods["top"].Disable()
 		lw.mods["subject"].Disable()
 		w.log.Rec("call", "driver", "ManageModules", nil)
@@ -223,10 +306,13 @@ func runLifeChild(sp caseSpec, dir string) {
 		lw.raised(err)
 		if lw.earlyDone.Load() {
 			lw.earlyStop(sp, "ManageModules", err)
+		} else if lw.lingerUndecided.Load() {
+			w.undecided("lifecycle-no-error", sp.Kind, sp.Value, "the stop routine had not handed over its result when the stop timeout fired")
 		} else {
-			w.check("lifecycle-no-error", sp.Kind, sp.Value, err != nil,
-				"ManageModules returned nil although the stop routine of the module it stopped panicked", nil)
+			w.check("lifecycle-no-error", lw.lingerKind(sp), sp.Value, err != nil,
+				"ManageModules returned nil although the stop routine of the module it stopped panicked"+lw.lingerText(), nil)
 		}
+		lw.afterLinger(sp)
 		w.checkReported(sp.Kind, lw.val, "subject", taskOK, nil)
 		s := w.snap()
 		w.keepSnap("after_panic", s)
@@ -276,9 +362,12 @@ func (lw *lifeWorld) shutdownLife(sp caseSpec, wantErr bool) {
 		lw.quiesce()
 		if lw.earlyDone.Load() {
 			lw.earlyStop(sp, "Shutdown", err)
+		} else if lw.lingerUndecided.Load() {
+			w.undecided("lifecycle-no-error", sp.Kind, sp.Value, "the stop routine had not handed over its result when the stop timeout fired")
 		} else {
-			w.check("lifecycle-no-error", sp.Kind, sp.Value, err != nil, "Shutdown returned nil although the stop routine of a module panicked", nil)
+			w.check("lifecycle-no-error", lw.lingerKind(sp), sp.Value, err != nil, "Shutdown returned nil although the stop routine of a module panicked"+lw.lingerText(), nil)
 		}
+		lw.afterLinger(sp)
 	}
 	if n := w.stopTimeouts.Load(); n > 0 {
 		s, _ := w.stopTOSnap.Load().(string)
@@ -297,4 +386,146 @@ func (lw *lifeWorld) shutdownLife(sp caseSpec, wantErr bool) {
 func (lw *lifeWorld) earlyStop(sp caseSpec, call string, err error) {
 	lw.check("stop-declared-complete-early", sp.Kind, "any", err != nil,
 		call+" treated the module as stopped (status offline, dependencies released) while its stop routine was still running, and returned nil although that routine then panicked", nil)
+}
+
+// ---------------------------------------------------------------------------------
+// start routine launches work, panics; retry pass; stop
+
+// retryAndStop: after the panic of the start routine was judged, a management pass
+// starts the module again (healthy this time), then everything is stopped. The items
+// the failed attempt left behind must not keep the module from stopping: no stop
+// timeout, their context is cancelled, the counters are zero at quiescence.
+func (lw *lifeWorld) retryAndStop(sp caseSpec) {
+	w := lw.world
+	if lw.status("subject") != "online" {
+		if sp.Kind == "start" {
+			// Start() cannot be repeated: switch to module management for the retry
+			modules.EnableModuleManagement(func(*modules.Module) {})
+			for _, m := range lw.mods {
+				m.Enable()
+			}
+		}
+		w.log.Rec("call", "driver", "ManageModules(retry)", nil)
+		err := modules.ManageModules()
+		w.log.Rec("ret", "driver", "ManageModules(retry)", map[string]any{"err": errText(err)})
+		w.fact("retry_err", errText(err))
+		lw.quiesce()
+	}
+	st := lw.status("subject")
+	w.fact("subject_status_after_retry", st)
+	if st != "online" {
+		// nothing to stop; whether a failed start can be retried is not this property
+		w.note("retry pass did not bring the module online (status %s)", st)
+		lw.shutdownLife(sp, false)
+		return
+	}
+	w.count("start_retries_succeeded", 1)
+	kind := sp.Kind + "+items" // own case class in the violation signature
+	running := 0
+	for _, it := range lw.startItems {
+		if !it.ended.Load() {
+			running++
+		}
+	}
+	w.fact("start_items_still_running_before_stop", running)
+	spK := sp
+	spK.Kind = kind
+	lw.shutdownLife(spK, false) // judges modules.stop.timeout
+	// Shutdown has returned and the module is offline: every item has been told to stop
+	live := []string{}
+	for _, it := range lw.startItems {
+		if !it.ended.Load() && it.ctxLive() {
+			live = append(live, it.name)
+		}
+	}
+	w.check("stop", kind, sp.Value, len(live) == 0,
+		fmt.Sprintf("the start routine launched work and panicked, a later pass started the module again, and after Shutdown (module %s) %d of that work item(s) are still running with a context that was never cancelled: %v", lw.status("subject"), len(live), live), nil)
+	zero := snap{}
+	last, ok := w.settle(zero)
+	w.keepSnap("after_retry_and_shutdown", last)
+	if !ok && len(live) > 0 {
+		w.check("counter-leak", kind, sp.Value, false,
+			fmt.Sprintf("after Shutdown the module's work counters read %+v instead of zero: work launched by the start routine that panicked was never cancelled (%v)", last, live), last)
+		return
+	}
+	w.decideSettle(kind, sp.Value, "after the retry pass and Shutdown", zero, last, ok)
+	w.count("start_items_seen_cancelled", int64(len(lw.startItems)))
+}
+
+// ---------------------------------------------------------------------------------
+// stop routine panics while a healthy worker outlives the stop timeout
+
+const lingerStopTimeout = 300 * time.Millisecond
+
+func (lw *lifeWorld) setupLinger() {
+	lw.lingerRelease = make(chan struct{})
+	// the only place where a stop timeout is wanted: small, and its *event* (not the
+	// clock) releases the worker
+	modules.VerifSetStopTimeout(lingerStopTimeout)
+	vhook.Set("modules.ctrlfn.sent", func(_, subject string) {
+		if subject == "subject" && lw.phaseRun["subject/stop"].Load() >= 1 {
+			lw.stopSent.Store(true)
+		}
+	})
+	vhook.Set("modules.stop.timeout", func(_, subject string) {
+		lw.log.Rec("hook", subject, "modules.stop.timeout", nil)
+		if subject != "subject" || !lw.timeoutSeen.CompareAndSwap(false, true) {
+			return // a slow stop elsewhere under this small timeout is of no interest
+		}
+		// Runs in stopAllTasks before it looks for the stop routine's result: make
+		// sure that result (the panic) has been handed over, so that what the pass
+		// returns does not depend on how fast the stop routine was scheduled.
+		if !waitFor(60*time.Second, lw.stopSent.Load) {
+			lw.lingerUndecided.Store(true)
+		}
+		close(lw.lingerRelease)
+	})
+}
+
+func (lw *lifeWorld) launchLinger() {
+	if !lw.spec.Linger {
+		return
+	}
+	lw.mods["subject"].StartWorker("lingering worker", func(ctx context.Context) error {
+		lw.log.Rec("begin", "lingering worker", "worker", nil)
+		lw.lingerBegun.Store(true)
+		<-ctx.Done()
+		<-lw.lingerRelease // winds down for longer than the stop timeout
+		lw.log.Rec("end", "lingering worker", "worker", nil)
+		lw.lingerEnded.Store(true)
+		return nil
+	})
+	if !waitFor(waitBegin, lw.lingerBegun.Load) {
+		lw.harnessProblem("the lingering worker did not begin")
+	}
+}
+
+// lingerKind: these cases are their own class in the violation signature.
+func (lw *lifeWorld) lingerKind(sp caseSpec) string {
+	if sp.Linger {
+		return sp.Kind + "+linger"
+	}
+	return sp.Kind
+}
+
+func (lw *lifeWorld) lingerText() string {
+	if lw.spec.Linger && lw.timeoutSeen.Load() {
+		return " (a healthy worker of the module was still winding down when the stop timeout fired; the stop routine's result had been handed over before)"
+	}
+	return ""
+}
+
+// afterLinger: the timeout event was seen, the worker ended, the counters are back.
+func (lw *lifeWorld) afterLinger(sp caseSpec) {
+	if !sp.Linger {
+		return
+	}
+	w := lw.world
+	w.fact("stop_timeout_event_seen", lw.timeoutSeen.Load())
+	if lw.timeoutSeen.Load() {
+		w.count("stops_through_timeout_with_panicked_stop_routine", 1)
+	}
+	zero := snap{}
+	last, ok := w.settle(zero)
+	w.decideSettle(lw.lingerKind(sp), sp.Value, "after the lingering worker was released", zero, last, ok)
 }
